@@ -13,6 +13,7 @@ import (
 	"strconv"
 	"strings"
 	"testing"
+	"testing/cryptotest"
 	"time"
 
 	"verif/harness/props"
@@ -66,10 +67,14 @@ func knownSet() map[string]bool {
 	return m
 }
 
-// runOne executes a program with panic recovery.
+// runOne executes a program with panic recovery. Properties that use Go's
+// global cryptographic randomness (crypto/rand.Reader, RSA/ECDSA of the
+// standard library) run inside a subtest whose global random source is
+// seeded from the program (testing/cryptotest.SetGlobalRandom), so that the
+// execution is a pure function of the program.
 func runOne(t *testing.T, pr *props.Prop, p *sim.Program, logOn bool) (res *sim.Result) {
 	c := sim.NewCtx(knownSet(), os.Getenv("VERIF_NODE"), logOn)
-	func() {
+	body := func(t *testing.T) {
 		defer func() {
 			if r := recover(); r != nil {
 				st := string(debug.Stack())
@@ -85,7 +90,15 @@ func runOne(t *testing.T, pr *props.Prop, p *sim.Program, logOn bool) (res *sim.
 			}
 		}()
 		pr.Exec(t, p, c)
-	}()
+	}
+	if pr.GlobalRand {
+		t.Run("r", func(t *testing.T) {
+			cryptotest.SetGlobalRandom(t, uint64(p.C("grand"))+1)
+			body(t)
+		})
+	} else {
+		body(t)
+	}
 	return c.Result()
 }
 
